@@ -95,6 +95,9 @@ def _collect(tier):
     plan = [("gating", items_of(96 if q else 700, 1), {"cfgs": 3 if q else 4}),
             ("fixphase", items_of(64 if q else 500, 2), {}),
             ("purity", items_of(64 if q else 500, 3), {"perms": 1 if q else 3, "subsets": 3 if q else 5}),
+            # the same experiment under a configuration in which option LISTS are given once for all rules (rule.global):
+            # the list objects are shared between rules, so a rule that touches its list touches everyone's
+            ("purity", items_of(20 if q else 200, 7), {"perms": 1 if q else 3, "subsets": 3 if q else 5, "base_cfg": SHARED_OPTIONS, "cfgname": "shared-options"}),
             ("fixonly", items_of(64 if q else 500, 4), {}),
             ("robust", items_of(96 if q else 900, 6), {"per_file": 4 if q else 8})]
     jobs = []
@@ -168,7 +171,7 @@ def _collect(tier):
                      "detail": {"cfg": r["cfg"], "run": {k2: v for k2, v in run.items() if k2 != "reported"}, "reported": len(run.get("reported", [])), "violations": len(r["V"])}}
             elif t == "purity":
                 names = [x[0] for x in r.get("impure_names", [])]
-                f = {"property": prop, "clause": clause, "rule": ",".join(sorted(set(names))) if clause == "C06_AnalyzePure" else "", "input": r["file"], "config": "purity",
+                f = {"property": prop, "clause": clause, "rule": ",".join(sorted(set(names))) if clause == "C06_AnalyzePure" else "", "input": r["file"], "config": "purity" + ((" " + r["cfgname"]) if r.get("cfgname") else ""),
                      "detail": {"impure": r.get("impure_names"), "subset": k, "D": len(r["subsets"][k - 1]["D"]) if 0 < k <= len(r["subsets"]) else None}}
             elif t == "fixonly":
                 f = {"property": prop, "clause": clause, "rule": r.get("rule", ""), "input": r["file"], "config": "fix_only:" + r["kind"],
@@ -186,6 +189,9 @@ def _collect(tier):
     shutil.rmtree(wd, ignore_errors=True)
     return {"findings": findings, "stats": stats, "design": design, "samples": samples}
 
+
+# overlapping exceptions, the shorter first: with "first match wins" the order of the list decides the verdict
+SHARED_OPTIONS = {"rule": {"global": {"prefix_exceptions": ["p_", "p_in_", "s_", "s_axi_", "i_", "o_", "g_", "c_"], "suffix_exceptions": ["_i", "_in_i", "_o", "_t", "_n", "_reg_n"]}}}
 
 TYPES = {"C06": ["purity"], "C13": ["gating", "equiv"], "C14": ["formats"], "C20": ["fixonly"], "C19": ["robust"]}
 LEVEL = {"C06": "exploration", "C13": "model_checking", "C14": "model_checking", "C20": "model_checking"}
